@@ -1,6 +1,7 @@
 package rules
 
 import (
+	"go/token"
 	"sort"
 	"strings"
 
@@ -76,7 +77,10 @@ func c19(c *Ctx) {
 	r.Decides("the key written at pre-bind by each plugin is read on that plugin's pod informer path")
 	r.Decides("the allocation record rebuilt from the annotations sets every field the allocating path sets, and reads every field the pre-bind path persisted; a persisted allocation is dropped by the rebuild only when it is completely empty")
 	r.Decides("owner objects are replayed before pods: the reservation handler is registered before the pod handler, the quota handler before the pod handler; an update event of a pod with a reservation assignment is always replayed into the reservation ledger")
+	r.Decides("a successful pre-bind always writes the allocation the scheduler accounted; the restore handler rebuilds the allocation for every event of a bound pod that carries one; the quota manager's pod-event steps (incl. the migration out of the default quota used when a pod is replayed before its quota) come in matching pairs")
 	r.Declines("equality of the live and the rebuilt caches over histories, duplicate/update event orderings")
+
+	quotaPairing(c)
 
 	// ---- CODEC
 	r.Rule("CODEC: for each annotation key in apis/extension the json.Marshal argument type stored under it equals the json.Unmarshal target type read from it, and the type is round-trip safe by structural induction over go/types")
@@ -200,6 +204,103 @@ func c19(c *Ctx) {
 		}
 		r.Check(upd != nil && bad == "" && n >= 1, "PATH", fkey(restore)+"/drop-only-if-empty", c.Pos(restore.Pos()), "a persisted allocation is skipped only when it has neither CPUs nor NUMA amounts",
 			"the restore path returns at "+bad+" when only one of cpuset / per-NUMA amounts is empty: a NUMA-only (or cpuset-only) allocation is not rebuilt after a restart and its resources look free")
+	}
+
+	// ---- persist on every successful pre-bind; restore on every informative event
+	r.Rule("PATH(persist): in the nodenumaresource and deviceshare preBindObject, with the pre-filter state valid, not skipped and an allocation present, no return of a nil (success) status is reachable without SetResourceStatus / SetDeviceAllocations of the state's allocation (what the scheduler accounted is what is written; an annotation already on the object is no reason to skip)")
+	for _, x := range []struct{ pkg, setter string }{{numaPkg, "SetResourceStatus"}, {devsharePkg, "SetDeviceAllocations"}} {
+		f := c.Fn(x.pkg, "Plugin", "preBindObject")
+		if f == nil {
+			continue
+		}
+		facts := an.Facts{}
+		for _, b := range f.Blocks {
+			for _, in := range b.Instrs {
+				switch v := in.(type) {
+				case *ssa.Call:
+					if an.ShortCallee(&v.Call) == "IsSuccess" {
+						facts[v] = an.True
+					}
+				case *ssa.UnOp:
+					if v.Op == token.MUL && strings.HasSuffix(an.Path(v), ".skip") {
+						facts[v] = an.False
+					}
+				case *ssa.BinOp:
+					px := an.Path(v.X)
+					if an.IsNilConst(v.Y) && (strings.HasSuffix(px, ".allocationResult") || strings.HasSuffix(px, ".allocation")) {
+						if v.Op == token.EQL {
+							facts[v] = an.False
+						} else if v.Op == token.NEQ {
+							facts[v] = an.True
+						}
+					}
+				}
+			}
+		}
+		reach := an.Explore(f, nil, facts, func(in ssa.Instruction) bool {
+			cl, ok := in.(ssa.CallInstruction)
+			return ok && an.ShortCallee(cl.Common()) == x.setter
+		})
+		var bad []string
+		for _, ret := range reach.Returns() {
+			v := ret.Results[0]
+			if call, _ := an.ResultOfCall(v); call != nil {
+				if sn := an.ShortCallee(&call.Call); sn == "NewStatus" || sn == "AsStatus" {
+					continue
+				}
+			}
+			if reach.EvalAt(v, ret) == an.NonNil {
+				continue
+			}
+			bad = append(bad, c.InstrPos(ret))
+		}
+		r.Check(len(facts) >= 3 && len(bad) == 0, "PATH", fkey(f)+"/success=>"+x.setter, c.Pos(f.Pos()), "a successful pre-bind always persists the accounted allocation", sprintf("preBindObject can succeed (return at %s) without %s although the cycle state holds an allocation (%d preconditions recognised): after a restart the ledgers are rebuilt from something else than what was accounted", strings.Join(bad, ","), x.setter, len(facts)))
+	}
+	r.Rule("PATH(restore): in nodenumaresource podEventHandler.updatePod, for a bound, not terminated pod whose annotations parse and carry a non-empty allocation, no return is reachable without resourceManager.Update(node, allocation) - whatever the previous version of the pod looked like")
+	if f := c.Fn(numaPkg, "podEventHandler", "updatePod"); f != nil {
+		facts := an.Facts{}
+		pod := f.Params[len(f.Params)-1]
+		for _, b := range f.Blocks {
+			for _, in := range b.Instrs {
+				switch v := in.(type) {
+				case *ssa.Call:
+					switch an.ShortCallee(&v.Call) {
+					case "IsPodTerminated":
+						facts[v] = an.False
+					case "IsEmpty":
+						facts[v] = an.False
+					}
+					if e := extract(v, 1); e != nil && isErrorType(e.Type()) {
+						facts[e] = an.Nil
+					}
+				case *ssa.BinOp:
+					if s2, isC := constString(v.Y); isC && s2 == "" && strings.HasSuffix(an.Path(v.X), ".Spec.NodeName") {
+						rooted := false
+						for x := range backwardAll(v.X) {
+							if x == ssa.Value(pod) {
+								rooted = true
+							}
+						}
+						if rooted {
+							if v.Op == token.EQL {
+								facts[v] = an.False
+							} else if v.Op == token.NEQ {
+								facts[v] = an.True
+							}
+						}
+					}
+				}
+			}
+		}
+		reach := an.Explore(f, nil, facts, func(in ssa.Instruction) bool {
+			cl, ok := in.(ssa.CallInstruction)
+			return ok && cl.Common().IsInvoke() && cl.Common().Method.Name() == "Update"
+		})
+		var bad []string
+		for _, ret := range reach.Returns() {
+			bad = append(bad, c.InstrPos(ret))
+		}
+		r.Check(len(facts) >= 4 && len(bad) == 0, "PATH", fkey(f)+"/bound-pod=>Update", c.Pos(f.Pos()), "every informative event of a bound pod rebuilds its allocation", "the restore path can return (at "+strings.Join(bad, ",")+") for a bound pod with a persisted allocation without resourceManager.Update: an event whose annotations equal the previous version (e.g. the bind itself after a restart) no longer repairs a cache that misses the allocation")
 	}
 
 	// ---- registration order
